@@ -34,9 +34,9 @@ CONSTRUCT = "puresnmp.exc:ErrorResponse.construct"
 
 def run(ctx: Ctx, rep: Report) -> None:
     rep.rule("C08-R1", "non-zero error-status: every path of PDU.decode_raw raises ErrorResponse.construct(status, oid)", floor=30)
-    rep.rule("C08-R2", "ErrorResponse subclasses <-> RFC 3416 status table; construct() is exact", floor=22)
+    rep.rule("C08-R2", "ErrorResponse subclasses <-> RFC 3416 status table; construct() is exact", floor=13)
     rep.rule("C08-R3", "index derived from error-index is range-checked against the indexed list", floor=1)
-    rep.rule("C08-R4", "offending binding = varbinds[error_index - 1]; its OID reaches construct()", floor=2)
+    rep.rule("C08-R4", "offending binding = varbinds[error_index - 1]; its OID reaches construct()", floor=1)
     rep.rule("C08-R5", "no handler swallows ErrorResponse; lazy PDU evaluation is forced", floor=2)
     rep.assumptions += ["x690.decode returns the TLV at the given offset and the offset of the next one (C06/C20)"]
     pd = PduDecode(ctx)
@@ -245,76 +245,56 @@ def check_table(ctx: Ctx, rep: Report, err_base: ClassInfo, construct_fn: FuncIn
     indirect = [c.name for c in allsubs if c not in direct and c.name in rfc.ERROR_CLASS_BY_STATUS.values()]
     rep.check(not indirect, "C08-R2", site, "every status class is a *direct* subclass (construct() enumerates __subclasses__())", f"indirect: {indirect}", key="status-table|indirect")
 
-    # construct(): dictionary keyed by IDENTIFIER over ErrorResponse.__subclasses__(), lookup by status
+    # construct(): evaluated over the status domain with the engine's evaluator (dictionary, memoised helper, linear
+    # scan ... all compute the same thing); the result must be an instance of the class documented for the status,
+    # built with the offending OID
+    from ..engine.minieval import Instance, MiniEval, Raised, Sym, Unevaluable
+
     fn = construct_fn
-    defs = ctx.defs(fn)
     site = fn.site()
-    status_param, oid_param = fn.params[0], fn.params[1]
-    table_ok = False
-    table_name = None
-    for name, vals in defs.assigns.items():
-        for val0, _ in vals:
-            val = defs.single(name) if len(vals) == 1 else val0
-            if isinstance(val, ast.DictComp) and len(val.generators) == 1:
-                gen = val.generators[0]
-                it = gen.iter
-                if (
-                    isinstance(it, ast.Call)
-                    and isinstance(it.func, ast.Attribute)
-                    and it.func.attr == "__subclasses__"
-                    and ctx.r.resolve_class(fn.module, it.func.value) == ctx.u.cls("puresnmp.exc:ErrorResponse")
-                    and isinstance(gen.target, ast.Name)
-                    and not gen.ifs
-                    and norm(val.key) == f"{gen.target.id}.IDENTIFIER"
-                    and norm(val.value) == gen.target.id
-                ):
-                    table_ok = True
-                    table_name = name
-    rep.check(table_ok or None if not table_ok else True, "C08-R2", site, "construct() builds {cls.IDENTIFIER: cls} over ErrorResponse.__subclasses__()", "dictionary comprehension not recognised", key=f"{fn.key}|table")
-    if not table_ok:
+    base_cls = ctx.u.cls("puresnmp.exc:ErrorResponse")
+    init0 = base_cls.methods.get("__init__")
+    oid_sym, msg_sym = Sym("offending-oid"), Sym("message")
+    decos = [norm(d) for d in getattr(fn.node, "decorator_list", [])]
+    lead: List[object] = [] if "staticmethod" in decos or fn.cls is None else [None]
+
+    def outcome(status: int):
+        ev = MiniEval(ctx)
+        args: List[object] = list(lead)
+        if lead:
+            from ..engine.minieval import ClassRef
+
+            args = [ClassRef(base_cls)]
+        try:
+            return ev.call_function(fn, args + [status, oid_sym, msg_sym]), None
+        except Raised as exc:
+            return None, f"raises {exc.value!r}"
+        except Unevaluable as exc:
+            return None, f"not evaluable: {exc}"
+
+    def init_binding(inst: "Instance") -> Dict[str, object]:
+        cinit = ctx.r.method(inst.cls, "__init__")
+        names = cinit.params[1:] if cinit is not None else []
+        bound = dict(zip(names, inst.args))
+        bound.update(inst.kwargs)
+        return bound
+
+    undecidable = None
+    for status, want in sorted(rfc.ERROR_CLASS_BY_STATUS.items()):
+        got, err = outcome(status)
+        if err is not None and err.startswith("not evaluable"):
+            undecidable = err
+            break
+        documented = ctx.r.resolve_class(base_cls.module, ast.Name(want, ast.Load()))
+        ok = isinstance(got, Instance) and (got.cls.name == want or (documented is not None and got.cls.key == documented.key)) and init_binding(got).get("offending_oid") == oid_sym
+        rep.check(ok, "C08-R2", site, f"construct({status}, oid) builds {want}(oid, ..)", f"{got!r}" if err is None else err, key=f"{fn.key}|known-status|{status}")
+    if undecidable is not None:
+        rep.undecided("C08-R2", site, "construct() can be evaluated over the status table", undecidable)
         return
-    cfg = ctx.cfg(fn)
-
-    def env_for(found: bool):
-        def env(expr: ast.expr) -> Optional[bool]:
-            if isinstance(expr, ast.Compare) and len(expr.ops) == 1 and norm(expr.left) == status_param and norm(expr.comparators[0]) == table_name:
-                if isinstance(expr.ops[0], ast.In):
-                    return found
-                if isinstance(expr.ops[0], ast.NotIn):
-                    return not found
-            return None
-
-        return env
-
-    def returned_call(outcome) -> Optional[ast.Call]:
-        stmt = outcome.stmt
-        if isinstance(stmt, ast.Return) and isinstance(stmt.value, ast.Call):
-            return stmt.value
-        return None
-
-    outs = simulate(cfg, env_for(True))
-    ok = bool(outs)
-    for o in outs:
-        call = returned_call(o)
-        if o.kind != "return" or call is None:
-            ok = False
-            continue
-        callee = defs.expand(call.func, stop=[table_name])
-        good_cls = isinstance(callee, ast.Subscript) and norm(callee.value) == table_name and norm(callee.slice) == status_param
-        good_oid = bool(call.args) and norm(call.args[0]) == oid_param or any(kw.arg == "offending_oid" and norm(kw.value) == oid_param for kw in call.keywords)
-        ok = ok and good_cls and good_oid
-    rep.check(ok, "C08-R2", site, "known status: returns table[error_status](offending_oid, ..)", f"{outs}", key=f"{fn.key}|known-status")
-    outs = simulate(cfg, env_for(False))
-    ok = bool(outs)
-    for o in outs:
-        call = returned_call(o)
-        if o.kind != "return" or call is None or ctx.r.resolve_class(fn.module, call.func) != ctx.u.cls("puresnmp.exc:ErrorResponse"):
-            ok = False
-            continue
-        init = ctx.u.cls("puresnmp.exc:ErrorResponse").methods["__init__"]
-        bound = bind_call_args(call, init.params)
-        ok = ok and norm(bound.get("error_status", ast.Constant(None))) == status_param and norm(bound.get("offending_oid", ast.Constant(None))) == oid_param
-    rep.check(ok, "C08-R2", site, "unknown status: returns the generic ErrorResponse carrying the raw status and the OID", f"{outs}", key=f"{fn.key}|unknown-status")
+    for status in (19, 99, 255, -1):
+        got, err = outcome(status)
+        ok = isinstance(got, Instance) and got.cls.key == base_cls.key and init_binding(got).get("offending_oid") == oid_sym and init_binding(got).get("error_status") == status
+        rep.check(ok, "C08-R2", site, f"construct({status}, oid): an undefined status yields the generic ErrorResponse carrying the raw status and the OID", f"{got!r}" if err is None else err, key=f"{fn.key}|unknown-status")
 
     # __init__ records status and oid
     init = ctx.u.cls("puresnmp.exc:ErrorResponse").methods.get("__init__")
